@@ -31,6 +31,8 @@ func (p *Post) String() string {
 	switch p.Kind {
 	case "ret>=0":
 		return fmt.Sprintf("%sret%d ≥ 0", c, p.Ret)
+	case "ret>=1":
+		return fmt.Sprintf("%sret%d ≥ 1", c, p.Ret)
 	case "ret<=len":
 		return fmt.Sprintf("%sret%d ≤ len(param%d)", c, p.Ret, p.Param)
 	case "span":
@@ -134,6 +136,7 @@ func genContract(fn *ssa.Function) *Contract {
 			for _, cd := range conds {
 				c.Posts = append(c.Posts, &Post{Kind: "ret>=0", Ret: k, Cond: cd})
 			}
+			c.Posts = append(c.Posts, &Post{Kind: "ret>=1", Ret: k})
 			if b, ok := rt.Underlying().(*types.Basic); ok && b.Kind() == types.Int {
 				for _, n := range []int64{255, 65535, 65537, 1<<31 - 1, 1<<32 - 1, 1<<32 + 8, 1 << 62} {
 					c.Posts = append(c.Posts, &Post{Kind: "ret<=c", Ret: k, C: n})
@@ -288,6 +291,12 @@ func (p *Post) formula(c *Contract, e *contractEnv) (guard []*Lin, facts []*Lin,
 			return nil, nil, false
 		}
 		facts = []*Lin{ineqGE(r, linConst(0))}
+	case "ret>=1":
+		r := e.retInt(p.Ret)
+		if r == nil {
+			return nil, nil, false
+		}
+		facts = []*Lin{ineqGE(r, linConst(1))}
 	case "ret<=len":
 		r, l := e.retInt(p.Ret), e.paramLen(p.Param)
 		if r == nil || l == nil {
